@@ -13,7 +13,7 @@ package tickmath
 // 2^32-1, 2^16-1, 2^8-1, 2^4-1, 2^2-1, 2^1-1. (The 16-step log2 refinement that follows uses bit tricks that
 // are modelled abstractly; optimality of the final tick is not decided deductively, see DESIGN.md C11.)
 //@ func PriceToTick
-//@ assert 5: 0 <= msb && msb <= 63 && p == 1 && pow2(msb) <= price && price < 2 * pow2(msb)
+//@ assert before r: 0 <= msb && msb <= 63 && p == 1 && pow2(msb) <= price && price < 2 * pow2(msb)
 //@ loop 0: invariant 0 <= #i && #i <= 6 && 1 <= p && msb >= 0 && msb + pow2(6 - #i) <= 64
 //@ loop 0: invariant p == price / pow2(msb) && p < pow2(pow2(6 - #i))
 //@ loop 1: invariant 0 <= i && i <= 16
